@@ -16,7 +16,7 @@ pub fn ctor<const N: usize, P: Pad>(ctx: &mut Ctx) {
         empty_ctor_cases::<N, P>(ctx);
     }
     for_m!(M, {
-        if M <= 2 * N + 1 {
+        if M <= 2 * N + 3 {
             let key = hash64(&format!("ctor-array|{}|{}|{}", N, P::NAME, M));
             if ctx.mine_next() && ctx.begin_case(|| format!("ctor N={} T={} from_array M={}", N, P::NAME, M)) {
                 ledger_reset();
@@ -29,7 +29,10 @@ pub fn ctor<const N: usize, P: Pad>(ctx: &mut Ctx) {
         let key = hash64(&format!("ctor-iter|{}|{}|{}", N, P::NAME, k));
         if ctx.mine_next() && ctx.begin_case(|| format!("ctor N={} T={} from_iter items={}", N, P::NAME, k)) {
             ledger_reset();
-            from_iter_case::<N, P>(k, None, ctx, &FOL);
+            for hint in 0..4u8 {
+                ledger_reset();
+                from_iter_case::<N, P>(k, hint, None, ctx, &FOL);
+            }
             ctx.distinct.insert(key);
         }
     }
